@@ -35,6 +35,31 @@ theorem Canonical.check_update (c : Canonical) : c.updateCrc.checkCrc = true := 
     simp only [Canonical.checkCrc, h]
     simp [Canonical.crcValue_setCrc]
 
+/-- a block that passes its check is a fixed point of `updateCrc` -/
+theorem Canonical.update_of_check (c : Canonical) (h : c.checkCrc = true) : c.updateCrc = c := by
+  unfold Canonical.checkCrc at h
+  unfold Canonical.updateCrc
+  cases c with
+  | mk ty num fl ct btsd crc =>
+    by_cases h0 : (ct == 0) = true
+    · simp only [h0, if_true] at h ⊢
+      cases crc <;> simp_all
+    · simp only [h0, Bool.false_eq_true, if_false, beq_iff_eq] at h ⊢
+      rw [h]
+      simp [Canonical.crcValue, Canonical.zeroed]
+
+theorem Primary.update_of_check (p : Primary) (h : p.checkCrc = true) : p.updateCrc = p := by
+  unfold Primary.checkCrc at h
+  unfold Primary.updateCrc
+  cases p with
+  | mk v fl ct d s r ts l fo tl crc =>
+    by_cases h0 : (ct == 0) = true
+    · simp only [h0, if_true] at h ⊢
+      cases crc <;> simp_all
+    · simp only [h0, Bool.false_eq_true, if_false, beq_iff_eq] at h ⊢
+      rw [h]
+      simp [Primary.crcValue, Primary.zeroed]
+
 theorem crcOf_length (t : Nat) (d : Bytes) : (crcOf t d).length = crcWidth t := by
   unfold crcOf crcWidth
   split
